@@ -1322,6 +1322,15 @@ theorem J_applyOp (w : World) (op : Op) (j : J w) : J (applyOp w op) := by
       have j1 := j.step (pres_setG w (gateSet g .stopped msg))
       have j2 := j1.step (pres_appendC _ { id := c, svc := svc, kind := .stop msg, drt := drt, phase := .gateSet o.id } trivial)
       exact j2.step (pres_park _ (Or.inr trivial))
+  | repause c svc drt fa =>
+    simp only [applyOp]
+    refine J_settle _ _ (J_withInstalled _ _ _ _ j (fun o _ _ => ?_))
+    split
+    · exact j
+    · rename_i g _
+      have j1 := j.step (pres_setG w (gatePause (gateSet g .running []) fa))
+      have j2 := j1.step (pres_appendC _ { id := c, svc := svc, kind := .pause fa, drt := drt, phase := .gateSet o.id } trivial)
+      exact j2.step (pres_park _ (Or.inr trivial))
   | resume c svc =>
     simp only [applyOp]
     refine J_settle _ _ (J_withInstalled _ _ _ _ j (fun o _ _ => ?_))
